@@ -40,7 +40,7 @@ func CheckTags(buildFlags []string, testTags map[string]bool) {
 	fileToTag := make(map[string]string) // Map to track which file corresponds to which tag
 	for tag := range testTags {
 		fileName := fmt.Sprintf("a%02d.go", i)
-		content := fmt.Sprintf("// +build %s\n\npackage check\n", tag)
+		content := fmt.Sprintf("%s\n\npackage check\n", constraintLine(tag))
 		vfs.files[fileName] = virtualFile{
 			name:    fileName,
 			content: content,
@@ -65,6 +65,24 @@ func CheckTags(buildFlags []string, testTags map[string]bool) {
 			testTags[tag] = true
 		}
 	}
+}
+
+// constraintLine renders a #cgo condition as a build constraint line.
+// Like go/build (matchAuto), the blank-separated fields are alternatives and a
+// field containing any of "&|()" is a //go:build expression, any other field
+// a "+build" option (comma = AND).
+func constraintLine(cond string) string {
+	if !strings.ContainsAny(cond, "&|()") {
+		return "// +build " + cond
+	}
+	fields := strings.Fields(cond)
+	for i, f := range fields {
+		if !strings.ContainsAny(f, "&|()") {
+			f = strings.ReplaceAll(f, ",", "&&")
+		}
+		fields[i] = "(" + f + ")"
+	}
+	return "//go:build " + strings.Join(fields, "||")
 }
 
 // virtualFile represents a virtual build tag check file
